@@ -103,9 +103,10 @@ class C11(Engine):
 
     @staticmethod
     def _val(k, tid, u):
+        # (every sixth value is falsy: '' / an empty path list - a scope holding such a value is still a scope)
         if k == "MYPATH":
-            return [f"/p{tid}_{u}", f"/q{u}"]
-        return f"v{tid}_{u}"
+            return [] if u % 6 == 0 else [f"/p{tid}_{u}", f"/q{u}"]
+        return "" if u % 6 == 0 else f"v{tid}_{u}"
 
     def gen_case(self, rng, tier, seed):
         nthreads = rng.choices((1, 2, 3), (2, 5, 3))[0]
